@@ -716,7 +716,7 @@ func init() {
 				}
 			}
 		}
-		us = append(us, coldUnit("uePolicyContainer", "uepolicy"))
+		us = append(us, coldUnit("uePolicyContainer", "uepolicy", "shared-parse"))
 		return us
 	}
 	core.Register(p)
